@@ -178,12 +178,22 @@ def random_pct(rng, i):
 def nan_call(mod, x, case, spell):
     axis = py_axis(case["ax"])
     qs = [n / d for n, d in case["q"]]
-    if spell == "percentile":
+    if spell in ("percentile", "ndpercentile"):
         qs = [100 * v for v in qs]
         q = qs[0] if case["sq"] else qs
+        if spell == "ndpercentile":      # percentile of an n-d array along axes (NaN-free data only)
+            return mod.percentile(x, q, axis=axis, method=case["method"], keepdims=case["kd"])
         return mod.nanpercentile(x, q, axis=axis, method=case["method"], keepdims=case["kd"])
     q = qs[0] if case["sq"] else qs
     return mod.nanquantile(x, q, axis=axis, method=case["method"], keepdims=case["kd"])
+
+
+def spellings(case):
+    """How the case can be spelled: nanquantile, nanpercentile and - on NaN-free n-d data - percentile(axis=...)."""
+    sp = ["quantile", "percentile"]
+    if NAN not in case["cells"] and len(case["shape"]) >= 2 and case["ax"] != [NONE]:
+        sp.append("ndpercentile")
+    return sp
 
 
 def ccase(case):
@@ -249,7 +259,10 @@ def classify_nan(case, clause, spell):
     cells = case["cells"]
     if NAN in cells:
         feats.append("nan")
-    return "nan%s:%s:%s" % (spell, clause, "+".join(feats))
+    feats.append("int-data" if case["kind"] == "i" else "float-data")
+    if any((100 * n) % d for n, d in case["q"]):
+        feats.append("fractional-percent")
+    return "%s:%s:%s" % ("percentile-nd" if spell == "ndpercentile" else "nan" + spell, clause, "+".join(feats))
 
 
 def _nan_work(item):
@@ -279,14 +292,14 @@ def replay_nan(ctx, items, on_violation=None):
             if cl == "SKIP":
                 ctx.skip(detail)
                 continue
-            ctx.count(("nanq", C22.slim(case), chunks, spell), (not exp["err"]) and NAN in case["cells"]
-                      and sum(len(c) for c in chunks) > len(chunks))
+            ctx.count(("nanq", C22.slim(case), chunks, spell), (not exp["err"]) and sum(len(c) for c in chunks) > len(chunks)
+                      and (NAN in case["cells"] or case["kind"] == "i"))
             if cl:
                 sig = classify_nan(case, cl, spell)
                 if on_violation:
                     on_violation(sig, cl)
                 else:
-                    ctx.violation(sig, "%s: da.nan%s disagrees with the reference" % (cl, spell),
+                    ctx.violation(sig, "%s: da.%s disagrees with the reference" % (cl, "percentile (n-d)" if spell == "ndpercentile" else "nan" + spell),
                                   {"case": C22.slim(case), "chunks": chunks, "expected": exp, "spell": spell, "observed": detail})
 
 
@@ -300,6 +313,7 @@ def nan_fills(ctx):
         fills.append(C22.gen_fill(rng, sh, "f", nans=max(1, n // 2)))
         if len(sh) == 2:
             fills.append(C22.gen_fill(rng, sh, "f", nan_row=True))
+        fills.append(C22.gen_fill(rng, sh, "i"))              # integer data (NaN-free): q must not be scaled in the data's dtype
         if not ctx.quick:
             fills.append(C22.gen_fill(rng, sh, "f", nans=0))
     return fills
@@ -311,18 +325,22 @@ def random_nan(rng, i):
                                                   [rng.randint(1, 3), rng.randint(1, 3), rng.randint(1, 4)])
     n = int(np.prod(shape))
     cells = [rng.choice((0, 1, 2, 3)) for _ in range(n)]
-    for p in rng.sample(range(n), min(n, rng.choice([0, 1, 2, 3, n // 2]))):
-        cells[p] = NAN
-    if nd >= 2 and rng.random() < 0.3:
-        inner = n // shape[0]
-        for j in range(inner):
-            cells[j] = NAN
+    kind = rng.choice(["f", "f", "i"])
+    if kind == "f":
+        for p in rng.sample(range(n), min(n, rng.choice([0, 1, 2, 3, n // 2]))):
+            cells[p] = NAN
+        if nd >= 2 and rng.random() < 0.3:
+            inner = n // shape[0]
+            for j in range(inner):
+                cells[j] = NAN
     axes = [[a] for a in range(-nd, nd)] + ([[0, 1]] if nd >= 2 else []) + ([[1, 2], [0, 1, 2]] if nd == 3 else [])
     vec = rng.random() < 0.5
-    case = {"id": "n%d" % i, "fam": "nanq", "shape": shape, "cells": cells, "kind": "f", "ax": rng.choice(axes),
+    qvec = rng.choice([[[0, 1], [1, 4], [1, 2], [1, 1]], [[1, 8], [3, 8], [5, 8]], [[1, 16], [7, 8]]])
+    case = {"id": "n%d" % i, "fam": "nanq", "shape": shape, "cells": cells, "kind": kind, "ax": rng.choice(axes),
             "kd": rng.random() < 0.4, "method": rng.choice(METHODS + ["linear"]),
-            "q": [[0, 1], [1, 4], [1, 2], [1, 1]] if vec else [rng.choice([[1, 2], [1, 4], [3, 4], [0, 1], [1, 1]])], "sq": not vec,
-            "chunks": random_chunks(rng, shape, zero_p=0), "spell": rng.choice(["quantile", "percentile"]), "whole": True}
+            "q": qvec if vec else [rng.choice([[1, 2], [1, 4], [3, 4], [0, 1], [1, 1], [1, 8], [3, 8], [7, 8]])], "sq": not vec,
+            "chunks": random_chunks(rng, shape, zero_p=0), "whole": True}
+    case["spell"] = rng.choice(spellings(case))
     return case
 
 
@@ -366,8 +384,10 @@ def decide_nan_records(ctx, recs, on_violation=None):
 PCT_INVS = ["QsSorted", "ReferenceSatisfies", "ContractBites"]
 NAN_INVS = ["NanWithin", "NanCellCount", "NanFreeIsQuantile"]
 QVEC = "<< <<0, 1>>, <<1, 4>>, <<1, 2>>, <<1, 1>> >>"
-QFORMS = ("{[q |-> << <<1, 2>> >>, sq |-> TRUE, kd |-> FALSE], [q |-> << <<3, 4>> >>, sq |-> TRUE, kd |-> TRUE], "
-          "[q |-> %s, sq |-> FALSE, kd |-> FALSE], [q |-> %s, sq |-> FALSE, kd |-> TRUE]}" % (QVEC, QVEC))
+QFRAC = "<< <<1, 8>>, <<3, 8>>, <<5, 8>> >>"          # 12.5 %, 37.5 %, 62.5 %: not integral as percents, exact as floats
+QFORMS = ("{[q |-> << <<1, 2>> >>, sq |-> TRUE, kd |-> FALSE], [q |-> << <<3, 8>> >>, sq |-> TRUE, kd |-> TRUE], "
+          "[q |-> %s, sq |-> FALSE, kd |-> FALSE], [q |-> %s, sq |-> FALSE, kd |-> TRUE], [q |-> %s, sq |-> FALSE, kd |-> FALSE]}"
+          % (QVEC, QVEC, QFRAC))
 
 
 def consts(fam, maxval=2, upto=4, long_data=(), fills=()):
@@ -429,7 +449,7 @@ def run(ctx):
     nsampled = ntotal > ncap
     if nsampled:
         pairs = rng.sample(pairs, ncap)
-    items = [(c["c"], c["e"], ch, ["quantile", "percentile"] if not ctx.quick else [rng.choice(["quantile", "percentile"])])
+    items = [(c["c"], c["e"], ch, spellings(c["c"]) if not ctx.quick else [rng.choice(spellings(c["c"]))])
              for c, ch in pairs]
     replay_nan(ctx, items)
     if items:
